@@ -24,7 +24,7 @@ ASSUMPTIONS = ['level names are matched case-insensitively and numeric levels ar
                'nor may they be removed']
 REQUIRED = ['routing_sequences', 'emits', 'deliveries_expected', 'silences_expected', 'resets', 'invalid_level_requests',
             'rotations', 'rotations_with_surplus', 'concurrent_disconnects_injected', 'concurrent_logging_requests_injected',
-            'subscription_changes_injected_into_emits', 'concurrent_emits_injected']
+            'subscription_changes_injected_into_emits', 'concurrent_emits_injected', 'records_logged_during_a_logging_request']
 
 N_SEQ = {'quick': 200, 'thorough': 10000}
 N_DIR = {'quick': 200, 'thorough': 10000}
@@ -122,12 +122,26 @@ class Routing:
                     k = rng.randint(1, 14)
                     ops[-1].append(f'while connection {cj} disconnects at line {k}')
                     self.inj.arm(k, lambda cc=conns[cj]: disp.remove_connection(cc))
+                emitting = None
+                if gone is None and self.inj is not None and want is not None and rng.random() < 0.3:
+                    # a module's thread logs a record while the request is inside set_conn_level (the delivery of THAT record
+                    # may go either way): the subscription the request makes holds for every later record
+                    mx = spec if spec in mods else rng.choice(mods)
+                    k = rng.randint(1, 14)
+                    emitting = (mx, k)
+                    ops[-1].append(f'while module {mx} logs a record at line {k}')
+                    self.inj.arm(k, lambda mx=mx: node.secnode.modules[mx].log.log(LEVELNO['error'], '%s', 'concurrent record'))
                 try:
                     reply = disp.handle_request(c, ('logging', spec, level))
                     ok = True
                 except Exception as e:
                     ok = False
                     reply = type(e).__name__
+                if emitting is not None:
+                    if self.inj.disarm():
+                        r.count('records_logged_during_a_logging_request')
+                    for c_ in conns:
+                        del c_.out[:]
                 if gone is not None:
                     if not self.inj.disarm():
                         disp.remove_connection(gone[1])       # line not reached: the disconnect happens right afterwards
